@@ -117,6 +117,24 @@ def check(case):
         vb = shared.apply(state, buf).double()
         require(bool(torch.all((vb - vals.double().flip(0)).abs() <= 1e-12 * (1 + vals.double().abs().flip(0)) + 1e-12 * term_mag.flip(0))), f"buffer-refilled-in-place:{key}",
                 f"Sigma{key}.apply on a sample tensor that was refilled in place does not follow the tensor's current contents")
+        # after an exception: the same configurations handed over in another dtype (single precision, integers) - accepted or refused with
+        # an exception that the caller catches; the caller then converts the SAME array to double and evaluates again
+        for other_dtype in (torch.float32, torch.long):
+            bad = space.to(other_dtype)
+            try:
+                shared.apply(state, bad)
+            except Exception:
+                pass
+            again = shared.apply(state, bad.double()).double()
+            require(bool(torch.all((again - vals.double()).abs() <= 1e-12 * (1 + vals.double().abs()) + 1e-12 * term_mag)), f"after-refused-dtype:{key}",
+                    f"Sigma{key}: an array first handed over as {other_dtype} (refused or not), then converted to double and evaluated, does not give the values of its configurations")
+        if sum(case["idx"]) % 3 == 0 and not case.get("big_rows"):
+            # long time axis: the same observable object evaluated 60 more times on the same batch
+            for rep in range(60):
+                last = shared.apply(state, space[idx].clone())
+                if True:
+                    require(bool(torch.all((last.double() - sub.double()).abs() <= 1e-12 * (1 + sub.double().abs()) + 1e-12 * term_mag[idx])), f"long-history:{key}",
+                            f"application #{rep + 4} of the same Sigma{key} object on the same batch differs from its earlier applications")
         # signed -> absolute -> signed on the SAME batch, back to back (no other batch in between), by two objects of the same class
         av2 = mk(True).apply(state, space.clone())
         fourth = shared.apply(state, space.clone())
